@@ -296,6 +296,11 @@ def _recursive_licenses_scan(text: str) -> bool:
 
 
 
+def _includes_hidden(text: str) -> bool:
+    c = ast.parse(text, mode="eval").body
+    return isinstance(c, ast.Call) and any(k.arg == "include_hidden" and isinstance(k.value, ast.Constant) and k.value.value is True for k in c.keywords)
+
+
 def rule_scan(ck: Check, repo: Repo) -> None:
     r = ck.rule("R4", "LICENSES/** scan: identifier table, extension-less detection, duplicates, recursion")
     q = f"{PJ}._identifier_of_license"
@@ -319,9 +324,19 @@ def rule_scan(ck: Check, repo: Repo) -> None:
             return ("return", "path.stem")
         return ("raise", "SpdxIdentifierNotFoundError")
 
+    def composite(outcome, v) -> str:
+        """What the SCAN makes of the outcome (its handler of SpdxIdentifierNotFoundError is decided below, cell by cell): a
+        raise ends in the whole name (no extension) when the name is known and in the stem otherwise, so raising for a
+        file whose stem would have been returned anyway changes a log line, not the identifier."""
+        if outcome[:2] == ("return", "path.stem"):
+            return "stem"
+        if outcome[:2] == ("raise", "SpdxIdentifierNotFoundError"):
+            return "whole-name (no extension)" if v.get("name_known") else "stem"
+        return f"other: {outcome[:2]}"
+
     for d, leaf, exp in tabulate(fn, H(), ref):
         r.instance("id:" + show_valuation(d), {"valuation": show_valuation(d), "outcome": leaf.outcome[:2]})
-        if leaf.outcome[:2] != exp:
+        if leaf.outcome[:2] != exp and composite(leaf.outcome, d) != composite(exp, d):
             hint = ""
             if d.get("name_known"):
                 hint = (" - `LICENSES/Python-2.0.1` (whole name is an SPDX identifier, so the file lacks an extension) is registered"
@@ -386,6 +401,7 @@ def rule_scan(ck: Check, repo: Repo) -> None:
         return out
 
     leaves = tabulate(f2, H2(), ref2)
+    hidden_reported: list = []
     r.floor(8, "paths through _find_licenses", got=len(leaves))
     for d, leaf, spec in leaves:
         ev = [e for c, e in _flat(leaf.events) if c and e[0] != "caught"]
@@ -394,6 +410,12 @@ def rule_scan(ck: Check, repo: Repo) -> None:
         r.instance("scan:" + name, {"cell": name, "effects": [repr(e)[:80] for e in ev]})
         if not scan or not _recursive_licenses_scan(scan[0][1]):
             r.violation(q2, "scan is not recursive over LICENSES/**", f"{scan}", repo.loc(f2))
+        elif not _includes_hidden(scan[0][1]) and not hidden_reported:
+            hidden_reported.append(1)
+            r.violation(q2, "the LICENSES/ scan does not see names that begin with a dot",
+                        "glob's `*` and `**` skip entries whose name starts with `.` unless include_hidden=True (library semantics): a licence"
+                        " text in `LICENSES/.old/CC0-1.0.txt` does not count - lint reports CC0-1.0 missing - while the same file in"
+                        " `LICENSES/old/` does ('licence texts in subdirectories of LICENSES/ count')", repo.loc(f2))
         eff = [e for e in ev if e[0] != "element-end"]
         end = [e for e in ev if e[0] == "element-end"]
         if spec["skip"]:
@@ -425,14 +447,29 @@ def rule_language_and_case(ck: Check, repo: Repo, folder: Folder, rid: str = "R5
     rx = folder.known("reuse.extract", "_LICENSEREF_PATTERN")
     if not isinstance(rx, Regex):
         raise AnalysisError("_LICENSEREF_PATTERN did not fold")
-    ref = r"LicenseRef-[A-Za-z0-9.\-]+$"
-    alpha = Alphabet([(rx.pattern, rx.flags), (ref, 0)], extra="aZ0.-_+ ", exclude="\n")
-    d = difference(Lang.from_regex(rx.pattern, rx.flags, alpha, "match"), Lang.from_regex(ref, 0, alpha, "match"))
-    r.instance("_LICENSEREF_PATTERN", {"pattern": rx.pattern, "difference": d})
-    if d is not None:
-        r.violation("reuse.extract._LICENSEREF_PATTERN", "LicenseRef- language",
-                    f"{d[1]!r} is {d[0]} compared with LicenseRef-[A-Za-z0-9.-]+ under match()",
-                    repo.loc(repo.module_assign("reuse.extract", "_LICENSEREF_PATTERN")))
+    ref = r"LicenseRef-[A-Za-z0-9.\-]+\Z"
+    alpha = Alphabet([(rx.pattern, rx.flags), (ref, 0)], extra="aZ0.-_+ \n")
+    # every use of the pattern: the method applied decides the language (identifiers and file names may end in a line
+    # break: `$` accepts one, `\Z` does not)
+    uses = []
+    for q, fn in repo.functions.items():
+        for n in ast.walk(fn):
+            if isinstance(n, ast.Call) and isinstance(n.func, ast.Attribute) and isinstance(n.func.value, ast.Name) \
+                    and n.func.value.id == "_LICENSEREF_PATTERN" and n.func.attr in ("match", "fullmatch", "search"):
+                uses.append((q, {"match": "match", "fullmatch": "full", "search": "search"}[n.func.attr], n))
+    r.floor(3, "uses of _LICENSEREF_PATTERN", got=len(uses))
+    L_ref = Lang.from_regex(ref, 0, alpha, "match")
+    seen_modes = set()
+    for q, mode, node in uses:
+        if mode in seen_modes:
+            continue
+        seen_modes.add(mode)
+        d = difference(Lang.from_regex(rx.pattern, rx.flags, alpha, mode), L_ref)
+        r.instance(f"_LICENSEREF_PATTERN:{mode}", {"pattern": rx.pattern, "applied_with": mode, "difference": d, "first_use": q})
+        if d is not None:
+            r.violation("reuse.extract._LICENSEREF_PATTERN", "LicenseRef- language",
+                        f"{d[1]!r} is {d[0]} compared with LicenseRef-[A-Za-z0-9.-]+ under {mode}() (first use: {q})",
+                        repo.loc(repo.module_assign("reuse.extract", "_LICENSEREF_PATTERN")))
     fold_calls = []
     control = 0
     for q, fn in repo.functions.items():
